@@ -87,6 +87,32 @@ def lp_case(cs, ctx, profile, probe_rate=0.0, probe_cap=64):
     case.update(en.light(ex))
     for f in findings:
         ctx.finding(f, case)
+    # second solve() on the same Solver object: every output oracle must hold again
+    if (profile.get('resolve_rate', 0.05) and rng.random() < profile.get('resolve_rate', 0.05) and ex['solver'] is not None
+            and ex['exc'] is None and not facts.get('backend_fault')):
+        from ..taps import TAP
+        s = ex['solver']
+        TAP.reset()
+        TAP.install()
+        TAP.inject_rng = random.Random(cs ^ 0x99)
+        TAP.snapshot = en.snapshot_fn(s)
+        ex2 = dict(ex, exc=None, short=None, long=None, debug=None, events=[])
+        try:
+            s.solve()
+            ex2['events'] = list(TAP.events)
+            ex2['prob'] = TAP.probs[-1] if TAP.probs else None
+            TAP.enabled = False
+            ex2['short'] = s.get_results()
+            ex2['long'] = s.get_results_long()
+        except Exception as e:
+            ex2['exc'] = dict(en.exc_info(e), phase='solve')
+        finally:
+            TAP.enabled = False
+        cnt2 = {}
+        f2, _ = en.judge_lp(ex2, ref, counters=cnt2)
+        ctx.cnt('second_solves_judged')
+        for f in f2:
+            ctx.finding(dict(f, monitor=f['monitor'] + '_after_resolve', msg='after a second solve() on the same object: ' + f['msg']), case)
     return {'spec': spec, 'opts': opts, 'ex': ex, 'ref': ref, 'facts': facts,
             'findings': findings, 'case': case, 'rng': rng}
 
